@@ -83,7 +83,7 @@ K_SASL = [
 
 COMPOSITE_VARIANTS = dict(name='composite_width_variants', kind='agreement', target='serde_amqp::de::Deserializer~fe2o3_amqp_types-composites', args=['C05.composite-variants'],
                      claim='every typed protocol item of the sample set (delivery states and outcomes, open / begin / flow / transfer / disposition / detach / end / close, header, properties, source, target, body sections; described-list bodies on both sides of the list8 / list32 boundary, trailing fields elided) decodes to the SAME value from every valid width of its outer list (list8 re-written as list32 and back, list0 as an empty list8 / list32), from a slice and from a stream, and the two values placed right behind it are found where they are (exactly the encoding is consumed)',
-                     bound='about 115 sample values x up to 3 width variants x 2 readers (derive-macro output and the serde visitors are outside the Verus subset; DescribedAccess::consume_list_header / consume_map_header are under contract in unit READERS)')
+                     bound='about 160 sample values (message-id / correlation-id in every variant, addresses, symbols, custom and standard error conditions, contents on both sides of the 255-octet boundary) x up to 3 width variants x 2 readers (derive-macro output and the serde visitors are outside the Verus subset; DescribedAccess::consume_list_header / consume_map_header are under contract in unit READERS)')
 
 ASYNC = 'async fn bodies are verified with .await erased (R3): sound for the state reached through the exclusive &mut self borrow, says nothing about interleavings through shared Arc state or cancellation'
 ENGINE = 'that the tokio engine tasks (select! loops, mpsc channels) call these functions once per frame in arrival order is not verified'
